@@ -597,6 +597,7 @@ for _patch, _props in (('refactors/R3/patch.diff', ('C04', 'C05', 'C06', 'C07', 
                        ('refactors/R41/patch.diff', ('C15', 'C16', 'C17')),
                        ('refactors/R42/patch.diff', ('C12', 'C13', 'C14')),
                        ('refactors/R43/patch.diff', ('C05', 'C06', 'C07', 'C09', 'C10', 'C11', 'C20')),
+                       ('refactors/R49/patch.diff', ('C03', 'C04', 'C05', 'C12', 'C13', 'C15', 'C16', 'C18')),   # harmless twins of round-14 seeds
                        ('refactors/R20/patch.diff', ('C12', 'C13'))):       # harmless twin of seed C12f (delay parameters read by a helper)   # harmless twin of seed C08e (memo with a complete key)    # harmless twin of seed C16c (prior spec looked up once per parameter)     # harmless twin of seed C15b (columns by list indexing, not by mask)
     for _p in _props:
         MUTANTS.append({'prop': _p, 'name': 'refactor-' + _patch.split('/')[1], 'kind': 'silent', 'patch': _patch})
